@@ -52,7 +52,13 @@ entered; `ok` iff every command ran and succeeded).
   last attempt at `t` succeeded, at a time ≥ `m`".  `C04_partial_timestamp`: without a positive
   `generates` pattern (`NoPosGenerates`) simply skip ⇒ goodRun.  `C04_timestamp_with_generates_false`:
   the disjunct is needed.
-The hash `H` is arbitrary throughout (fingerprints are compared, never inverted).
+* `C04_partial_src` — the same with the conclusion in terms of NAMES AND CONTENTS (ghost `Attempt.src`,
+  `goodRunSrc`): "the most recent attempt for the present (names, contents) succeeded", under the explicit
+  no-collision hypothesis `NoCollision` (F8B's injective encoding: `flatL_lensL_inj`);
+  `C04_constant_hash_vacuous`: why — `C04_partial` alone holds for a constant hash.
+  `C04_partial_queries`: `--status` / `--dry` / `--list --json` verdicts are as sound as a run.
+  `C04_counterexample_concurrent` (open): a second activation of the task in the same invocation.
+The hash `H` is arbitrary in `C04_partial` (fingerprints are compared, never inverted).
 -/
 namespace Props.C04
 open TaskModel.Finger
@@ -68,10 +74,10 @@ def C04_full (cfg : Cfg) : Prop :=
 
 private def mk (name : Bytes) (m : Method) (prompt : Bool) (ncmds : Nat) : Task :=
   { name, label := [], method := m, sources := [⟨false, [0]⟩], generates := [], status := [],
-    prompt, dir := none, cmds := List.replicate ncmds ⟨[], none⟩ }
+    prompt, dir := none, cmds := List.replicate ncmds ⟨[], none, false⟩ }
 private def pj (ts : List Task) : Proj := { base := [(0, [97])], dirOf := [], dirLen := [], tasks := ts }
 private def w0 : Step := .op (.write 0 [1] 5)
-private def env (n : Nat) : Env := ⟨n, true, none, none⟩
+private def env (n : Nat) : Env := ⟨n, true, none, none, false, true, false⟩
 private def run (i n : Nat) : Step := .inv i .run (env n)
 
 /-- a history after which task `i` is skipped although `goodRun` fails -/
@@ -148,8 +154,8 @@ theorem C04_equal_labels_old_rule :
     oldSumKey (mk [120] .checksum false 1) = oldSumKey { mk [121] .checksum false 1 with label := [120] } := by decide
 
 /- method timestamp with a `generates` entry: path 1, written by the first of two commands -/
-private def tg : Task := { mk [120] .timestamp false 1 with generates := [⟨false, [1]⟩], cmds := [⟨[(1, [9])], none⟩] }
-private def tg2 : Task := { tg with cmds := [⟨[(1, [9])], none⟩, ⟨[], none⟩] }
+private def tg : Task := { mk [120] .timestamp false 1 with generates := [⟨false, [1]⟩], cmds := [⟨[(1, [9])], none, false⟩] }
+private def tg2 : Task := { tg with cmds := [⟨[(1, [9])], none, false⟩, ⟨[], none, false⟩] }
 
 /-- (REPAIRED by TS1) once the marker existed a deleted `generates` file went unnoticed: the former
 witness is no longer bad. -/
@@ -176,12 +182,14 @@ theorem C04_counterexample_timestamp_forced_fail_generates :
     Bad Cfg.fixed (pj [tg2]) [w0, .inv 0 .force { env 10 with failAt := some 1 }] 0 tg2 := by decide
 
 /-- (REPAIRED by fix M; was what TS2 left of "the marker is moved by every check") a check that
-ends in "up to date" while no marker exists (here: after a `--force` run at 10) no longer creates
-one: the source written with mtime 15 is compared with the generates file (10) alone and rebuilt —
-the former witness is no longer bad, and no marker exists after the up-to-date check. -/
+ends in "up to date" while no marker exists (here: the generates file, written at 10 by hand, vouches
+for a task that has no marker — since F8F a `--force` run leaves one, so the former witness starts
+differently) no longer creates one: the source written with mtime 15 is compared with the generates
+file (10) alone and rebuilt — the history is not bad, and no marker exists after the up-to-date check. -/
 theorem C04_timestamp_marker_created_fixed :
-    ¬ Bad Cfg.fixed (pj [tg]) [w0, .inv 0 .force (env 10), run 0 20, .op (.write 0 [2] 15)] 0 tg ∧
-    (runHist Cfg.fixed hId (pj [tg]) [w0, .inv 0 .force (env 10), run 0 20] State.empty).1.marks = [] := by decide
+    ¬ Bad Cfg.fixed (pj [tg]) [w0, .op (.write 1 [9] 10), run 0 20, .op (.write 0 [2] 15)] 0 tg ∧
+    (invoke Cfg.fixed hId (pj [tg]) 0 .run (env 20) (runHist Cfg.fixed hId (pj [tg]) [w0, .op (.write 1 [9] 10)] State.empty).1).2.skipped = true ∧
+    (runHist Cfg.fixed hId (pj [tg]) [w0, .op (.write 1 [9] 10), run 0 20] State.empty).1.marks = [] := by decide
 
 /-- (open, same root) the generates file is rewritten by something else (another task, an editor)
 after the source was edited. -/
@@ -236,7 +244,7 @@ theorem inv_empty : Inv pr State.empty := by
 /-- one logged attempt at task `j` together with the matching change of the store keeps `Inv` -/
 theorem inv_of_effect (hd : KeysDistinct pr) {s s' : State} (hinv : Inv pr s) {j : Nat} {tj : Task}
     (htj : pr.tasks[j]? = some tj) (fp : Bytes) (now : Nat) (ok : Bool)
-    (hlog : s'.log = s.log ++ [⟨j, fp, now, ok⟩])
+    {src : List (Bytes × Bytes)} (hlog : s'.log = s.log ++ [⟨j, fp, now, ok, src⟩])
     (hother : ∀ x, (Cs tj → x ≠ sumKey tj) → aget s'.sums x = aget s.sums x)
     (hkey : Cs tj → (ok = true ∧ (aget s'.sums (sumKey tj) = some fp ∨ aget s'.sums (sumKey tj) = aget s.sums (sumKey tj))) ∨
                     (ok = false ∧ aget s'.sums (sumKey tj) = none)) :
@@ -306,23 +314,27 @@ theorem inv_step (hd : KeysDistinct pr) (st : Step) (s : State) (ha : Allowed st
         · -- cancelled at the prompt: `statusOnError`, no attempt
           cases m with
           | force =>
-            rw [invoke_force Cfg.fixed H pr htj, runBody_declined Cfg.fixed H pr j tj e s hdec]
-            apply inv_of_cancel pr hd hinv htj (onError_log tj s)
+            obtain ⟨hclog, _, hcother, _⟩ := forceStart_effect H pr tj e s
+            rw [invoke_force Cfg.fixed H pr htj, runBody_declined Cfg.fixed H pr j tj e _ hdec]
+            apply inv_of_cancel pr hd hinv htj (by rw [onError_log, hclog])
             · intro x hx
               rw [onError_sums]
               by_cases hcs : Cs tj
-              · rw [if_pos hcs, aget_adel_ne _ (fun e => hx hcs e.symm)]
-              · rw [if_neg hcs]
+              · rw [if_pos hcs, aget_adel_ne _ (fun e => hx hcs e.symm)]; exact hcother x hx
+              · rw [if_neg hcs]; exact hcother x hx
             · intro hcs
               rw [onError_sums, if_pos hcs]; simp
           | run =>
-            rw [invoke_run Cfg.fixed H pr htj]
+            cases hce : checkErr tj e s.files with
+            | true => rw [invoke_run_err Cfg.fixed H pr htj e s hce]; exact hinv
+            | false =>
+            rw [invoke_run Cfg.fixed H pr htj e s hce]
             obtain ⟨hclog, _, hcother, _, hcskip⟩ := isUpToDate_effect H pr tj e.now s
             split
             · rename_i hup
               intro i t h hti hcs hget
               simp only at hget ⊢
-              rw [hcskip hup] at hget
+              rw [hcskip (and_left_true hup)] at hget
               rw [hclog]
               exact hinv i t h hti hcs hget
             · rw [runBody_declined Cfg.fixed H pr j tj e _ hdec]
@@ -343,28 +355,34 @@ theorem inv_step (hd : KeysDistinct pr) (st : Step) (s : State) (ha : Allowed st
         cases m with
         | force =>
           rw [invoke_force Cfg.fixed H pr htj]
-          obtain ⟨ok, hlog, hok, hfail⟩ := runBody_effect Cfg.fixed H pr j tj e s hpass
+          obtain ⟨hclog, hcfiles, hcother, hckey⟩ := forceStart_effect H pr tj e s
+          obtain ⟨ok, hlog, hok, hfail⟩ :=
+            runBody_effect Cfg.fixed H pr j tj e (forceStart H pr tj e s) hpass
+          rw [hclog, hcfiles] at hlog
           apply inv_of_effect pr hd hinv htj _ _ ok hlog
           · intro x hx
             cases ok with
-            | true => rw [(hok rfl).1]
+            | true => rw [(hok rfl).1]; exact hcother x hx
             | false =>
               rw [(hfail rfl).1]
               by_cases hcs : Cs tj
-              · rw [if_pos hcs, aget_adel_ne _ (fun e => hx hcs e.symm)]
-              · rw [if_neg hcs]
+              · rw [if_pos hcs, aget_adel_ne _ (fun e => hx hcs e.symm)]; exact hcother x hx
+              · rw [if_neg hcs]; exact hcother x hx
           · intro hcs
             cases ok with
-            | true => exact Or.inl ⟨rfl, Or.inr (by rw [(hok rfl).1])⟩
+            | true => exact Or.inl ⟨rfl, by rw [(hok rfl).1]; exact hckey hcs⟩
             | false => exact Or.inr ⟨rfl, by rw [(hfail rfl).1, if_pos hcs]; simp⟩
         | run =>
-          rw [invoke_run Cfg.fixed H pr htj]
+          cases hce : checkErr tj e s.files with
+          | true => rw [invoke_run_err Cfg.fixed H pr htj e s hce]; exact hinv
+          | false =>
+          rw [invoke_run Cfg.fixed H pr htj e s hce]
           obtain ⟨hclog, hcfiles, hcother, hckey, hcskip⟩ := isUpToDate_effect H pr tj e.now s
           split
           · rename_i hup
             intro i t h hti hcs hget
             simp only at hget ⊢
-            rw [hcskip hup] at hget
+            rw [hcskip (and_left_true hup)] at hget
             rw [hclog]
             exact hinv i t h hti hcs hget
           · obtain ⟨ok, hlog, hok, hfail⟩ :=
@@ -421,18 +439,181 @@ theorem C04_partial (hd : NamesDistinct pr) (hist : List Step) (ha : ∀ st ∈ 
   unfold goodRun
   simp only [hm, hsum.1, ha1, ha2, Bool.and_self]
 
+/-- the core of `C04_partial`, for the VERDICT of the check (whatever mode asked for it) -/
+theorem C04_partial_verdict (hd : NamesDistinct pr) (hist : List Step) (ha : ∀ st ∈ hist, Allowed st)
+    (i : Nat) (t : Task) (now : Nat) (dry : Bool) (ht : pr.tasks[i]? = some t) (hm : t.method = .checksum)
+    (hsrc : t.sources.isEmpty = false)
+    (hv : (isUpToDate H pr t dry now (runHist Cfg.fixed H pr hist State.empty).1).2 = true) :
+    goodRun H pr i t (runHist Cfg.fixed H pr hist State.empty).1 = true := by
+  have hinv := inv_hist H pr (keysDistinct_of_names hd) hist State.empty ha (inv_empty pr)
+  generalize (runHist Cfg.fixed H pr hist State.empty).1 = s at *
+  have hup : (isUpToDate H pr t false now s).2 = true := by
+    cases dry with
+    | false => exact hv
+    | true => rw [← isUpToDate_verdict_dry]; exact hv
+  rw [isUpToDate_sources H pr hsrc] at hup
+  have hsum : (sumCheck H pr t false s).2 = true := by
+    simp only [srcCheck, hm] at hup
+    cases hst : t.status.isEmpty <;> simp [hst] at hup <;> simp [hup]
+  rw [sumCheck_result] at hsum
+  simp only [Bool.and_eq_true, decide_eq_true_eq] at hsum
+  obtain ⟨a, ha1, ha2⟩ := hinv i t _ ht ⟨hm, hsrc⟩ hsum.2
+  unfold goodRun
+  simp only [hm, hsum.1, ha1, ha2, Bool.and_self]
+
+/-- **the query modes are as sound as a run** (the verdict is mode-independent:
+`isUpToDate_verdict_dry`): after any allowed history, `--status` exiting 0, `--dry` reporting "up to
+date" and an `up_to_date: true` of `--list --json` each imply `goodRun`. -/
+theorem C04_partial_queries (hd : NamesDistinct pr) (hist : List Step) (ha : ∀ st ∈ hist, Allowed st)
+    (i : Nat) (t : Task) (e : Env) (ht : pr.tasks[i]? = some t) (hm : t.method = .checksum)
+    (hsrc : t.sources.isEmpty = false) :
+    ((invoke Cfg.fixed H pr i .status e (runHist Cfg.fixed H pr hist State.empty).1).2.exit = .ok →
+      goodRun H pr i t (runHist Cfg.fixed H pr hist State.empty).1 = true) ∧
+    ((invoke Cfg.fixed H pr i .dry e (runHist Cfg.fixed H pr hist State.empty).1).2.skipped = true →
+      goodRun H pr i t (runHist Cfg.fixed H pr hist State.empty).1 = true) ∧
+    ((invoke Cfg.fixed H pr i .listJson e (runHist Cfg.fixed H pr hist State.empty).1).2.bits[i]? = some true →
+      goodRun H pr i t (runHist Cfg.fixed H pr hist State.empty).1 = true) := by
+  have key := fun hv => C04_partial_verdict H pr hd hist ha i t e.now true ht hm hsrc hv
+  generalize (runHist Cfg.fixed H pr hist State.empty).1 = s at *
+  refine ⟨?_, ?_, ?_⟩
+  · intro h
+    simp only [invoke, ht] at h
+    split at h
+    · cases h
+    · apply key
+      cases hv : (isUpToDate H pr t true e.now s).2 with
+      | true => rfl
+      | false => simp [hv] at h
+  · intro h
+    simp only [invoke, ht] at h
+    split at h
+    · cases h
+    · apply key
+      cases hv : (isUpToDate H pr t true e.now s).2 with
+      | true => rfl
+      | false =>
+        simp only [hv, Bool.false_eq_true, if_false] at h
+        rw [runBody_skipped] at h; cases h
+  · intro h
+    simp only [invoke] at h
+    split at h
+    · simp at h
+    · apply key
+      simp only [listJson_bits Cfg.fixed H pr rfl, List.nil_append] at h
+      rw [List.getElem?_map, ht] at h
+      simpa using h
+
+/-! ## The conclusion in terms of names and contents (ghost `Attempt.src`) -/
+
+/-- every logged attempt carries the fingerprint OF its ghost source list -/
+def LogOk (H : Hashes) (s : State) : Prop := ∀ a ∈ s.log, a.fp = fpOfList H a.src
+
+theorem logOk_hist (hist : List Step) (s : State) (h : LogOk H s) : LogOk H (runHist Cfg.fixed H pr hist s).1 := by
+  induction hist generalizing s with
+  | nil => exact h
+  | cons st rest ih =>
+    simp only [runHist]
+    apply ih
+    cases st with
+    | op o =>
+      intro a ha
+      simp only [step, (applyOp_fields pr o s).2.1] at ha
+      exact h a ha
+    | inv j m e =>
+      intro a ha
+      simp only [step] at ha
+      rcases invoke_log_src H pr j m e s with hl | ⟨b, hl, hb⟩
+      · rw [hl] at ha; exact h a ha
+      · rw [hl, List.mem_append, List.mem_singleton] at ha
+        rcases ha with ha | ha
+        · exact h a ha
+        · rw [ha]; exact hb
+
+theorem lastAtt_congr (p q : Attempt → Bool) : ∀ (l : List Attempt), (∀ a ∈ l, p a = q a) → lastAtt p l = lastAtt q l
+  | [], _ => rfl
+  | a :: l, h => by
+    simp only [lastAtt]
+    rw [lastAtt_congr p q l (fun x hx => h x (by simp [hx])), h a (by simp)]
+
+/-- the explicit hypothesis about the uninterpreted hashes: the checksum of the PRESENT sources of `t`
+collides with that of no logged attempt at `t` (for each such pair: `FpInj`) -/
+def NoCollision (H : Hashes) (pr : Proj) (i : Nat) (t : Task) (s : State) : Prop :=
+  ∀ a ∈ s.log, a.task = i → fpOfList H a.src = fpOfList H (srcList pr t s.files) →
+    flatL a.src = flatL (srcList pr t s.files) ∧ lensL a.src = lensL (srcList pr t s.files)
+
+/-- **C04_partial, stated for names and contents**: `C04_partial` compares FINGERPRINTS, so it would
+also hold for a hash that maps everything to one value.  With the ghost source list of every attempt
+(`Attempt.src`), the injective encoding of F8B (`flatL_lensL_inj`) and "no collision" as an explicit
+hypothesis, the conclusion is the property's own: if a run reports the task up to date, then the MOST
+RECENT ATTEMPT AT ITS COMMANDS FOR THE PRESENT (names, contents) OF ITS SOURCES ran them all
+successfully, and the generates exist. -/
+theorem C04_partial_src (hd : NamesDistinct pr) (hist : List Step) (ha : ∀ st ∈ hist, Allowed st)
+    (i : Nat) (t : Task) (e : Env) (ht : pr.tasks[i]? = some t) (hm : t.method = .checksum)
+    (hsrc : t.sources.isEmpty = false)
+    (hnc : NoCollision H pr i t (runHist Cfg.fixed H pr hist State.empty).1)
+    (hskip : (invoke Cfg.fixed H pr i .run e (runHist Cfg.fixed H pr hist State.empty).1).2.skipped = true) :
+    goodRunSrc pr i t (runHist Cfg.fixed H pr hist State.empty).1 = true := by
+  have hgood := C04_partial H pr hd hist ha i t e ht hm hsrc hskip
+  have hlog := logOk_hist H pr hist State.empty (by intro a ha; simp [State.empty] at ha)
+  generalize (runHist Cfg.fixed H pr hist State.empty).1 = s at *
+  have hcongr : lastAtt (fun a => decide (a.task = i ∧ a.fp = fpNow H pr t s.files)) s.log =
+      lastAtt (fun a => decide (a.task = i ∧ a.src = srcList pr t s.files)) s.log := by
+    apply lastAtt_congr
+    intro a hmem
+    by_cases hti : a.task = i
+    · have hfp := hlog a hmem
+      by_cases hs : a.src = srcList pr t s.files
+      · have : a.fp = fpNow H pr t s.files := by rw [hfp, hs, fpNow_eq_fpOfList]
+        simp [hti, hs, this]
+      · have : ¬ a.fp = fpNow H pr t s.files := by
+          intro hc
+          rw [hfp, fpNow_eq_fpOfList] at hc
+          have := hnc a hmem hti hc
+          exact hs (flatL_lensL_inj _ _ this.1 this.2)
+        simp [hti, hs, this]
+    · simp [hti]
+  unfold goodRun at hgood
+  unfold goodRunSrc
+  simp only [hm] at hgood
+  rw [← hcongr]
+  exact hgood
+
+/-- non-vacuity: the history of the example above; the hashes `hId`; no collision; the task is skipped
+and the last attempt for the present names and contents succeeded -/
+example :
+    let t := mk [97, 45, 98] .checksum false 2
+    let pr := pj [t, mk [97, 58, 98] .checksum true 1]
+    let hist : List Step := [w0, .inv 0 .run { env 10 with failAt := some 1 }, .inv 0 .dry (env 20), run 0 50, .op (.touch 0 70)]
+    let s := (runHist Cfg.fixed hId pr hist State.empty).1
+    (invoke Cfg.fixed hId pr 0 .run (env 99) s).2.skipped = true ∧ goodRunSrc pr 0 t s = true ∧
+    (∀ a ∈ s.log, a.task = 0 → fpOfList hId a.src = fpOfList hId (srcList pr t s.files) →
+      flatL a.src = flatL (srcList pr t s.files) ∧ lensL a.src = lensL (srcList pr t s.files)) := by
+  refine ⟨by decide, by decide, ?_⟩
+  decide
+
+/-- **why the ghost is needed**: with a CONSTANT hash `C04_partial`'s conclusion says nothing about
+contents — after a successful run and an edit the task is skipped, `goodRun` (fingerprints equal: both
+are the constant) holds, while `goodRunSrc` is false: no attempt was made for the present contents.
+(`NoCollision` fails for that hash, as it must.) -/
+theorem C04_constant_hash_vacuous :
+    let Hc : Hashes := ⟨fun _ => [], fun _ => []⟩
+    let t := mk [120] .checksum false 1
+    let s := (runHist Cfg.fixed Hc (pj [t]) [w0, run 0 10, .op (.write 0 [2] 15)] State.empty).1
+    (invoke Cfg.fixed Hc (pj [t]) 0 .run (env 99) s).2.skipped = true ∧ goodRun Hc (pj [t]) 0 t s = true ∧
+    goodRunSrc (pj [t]) 0 t s = false := by decide
+
 /-! ## The declined prompt (F31) -/
 
 /-- **a declined prompt leaves no checksum entry**: a run of a checksum task that is not up to
 date and is cancelled at the prompt exits `cancelled`, starts no command, logs no attempt, and
 the checksum the check had recorded is gone again (any wiring, any state, any hash). -/
 theorem C04_prompt_declined_no_entry (cfg : Cfg) {i : Nat} {t : Task} (ht : pr.tasks[i]? = some t) (hcs : Cs t)
-    (e : Env) (s : State) (hdec : Declined t e) (hns : (invoke cfg H pr i .run e s).2.skipped = false) :
+    (e : Env) (hg : e.gset = true) (s : State) (hdec : Declined t e) (hns : (invoke cfg H pr i .run e s).2.skipped = false) :
     aget (invoke cfg H pr i .run e s).1.sums (sumKey t) = none ∧
     (invoke cfg H pr i .run e s).2.exit = .cancelled ∧ (invoke cfg H pr i .run e s).2.ran = [] ∧
     (invoke cfg H pr i .run e s).1.log = s.log := by
-  rw [invoke_run cfg H pr ht] at hns ⊢
-  by_cases hup : (isUpToDate H pr t false e.now s).2 = true
+  rw [invoke_run cfg H pr ht e s (checkErr_gset t e s.files hg)] at hns ⊢
+  by_cases hup : ((isUpToDate H pr t false e.now s).2 && !interrupted t e) = true
   · rw [if_pos hup] at hns; cases hns
   · rw [if_neg hup, runBody_declined cfg H pr i t e _ hdec]
     refine ⟨?_, rfl, rfl, ?_⟩
@@ -441,9 +622,9 @@ theorem C04_prompt_declined_no_entry (cfg : Cfg) {i : Nat} {t : Task} (ht : pr.t
 
 /-- … so **the next run is not skipped** on account of the cancelled one. -/
 theorem C04_prompt_declined_next_runs (cfg : Cfg) {i : Nat} {t : Task} (ht : pr.tasks[i]? = some t) (hcs : Cs t)
-    (e e2 : Env) (s : State) (hdec : Declined t e) (hns : (invoke cfg H pr i .run e s).2.skipped = false) :
+    (e e2 : Env) (hg : e.gset = true) (s : State) (hdec : Declined t e) (hns : (invoke cfg H pr i .run e s).2.skipped = false) :
     (invoke cfg H pr i .run e2 (invoke cfg H pr i .run e s).1).2.skipped = false := by
-  have hnone := (C04_prompt_declined_no_entry H pr cfg ht hcs e s hdec hns).1
+  have hnone := (C04_prompt_declined_no_entry H pr cfg ht hcs e hg s hdec hns).1
   generalize (invoke cfg H pr i .run e s).1 = s1 at hnone
   cases hsk : (invoke cfg H pr i .run e2 s1).2.skipped with
   | false => rfl
@@ -456,6 +637,142 @@ theorem C04_prompt_declined_next_runs (cfg : Cfg) {i : Nat} {t : Task} (ht : pr.
     rw [sumCheck_result, hnone] at hsum
     simp at hsum
 
+/-! ## A run cancelled by a failing sibling (`Env.cancelled`) -/
+
+/-- **cancelled between the check and the first command**: a task with `status:` commands that runs
+as a dependency next to a sibling which fails while those commands run — they are interrupted, the
+sources checker has ALREADY written the new checksum, the cancelled context refuses the first command
+— goes through `statusOnError` like any failing command: the run exits `failed`, no command started,
+one attempt is logged as NOT ok, and the checksum the check had recorded is gone again (any wiring,
+any state, any hash).  (A tree that returns the context's error before the command loop — without the
+clean-up — keeps the entry: the next run would skip a task whose commands never ran.) -/
+theorem C04_sibling_cancelled_no_entry (cfg : Cfg) {i : Nat} {t : Task} (ht : pr.tasks[i]? = some t) (hcs : Cs t)
+    (e : Env) (hg : e.gset = true) (s : State) (hcan : e.cancelled = true) (hst : t.status.isEmpty = false) (hcmds : t.cmds ≠ [])
+    (hp : t.prompt = false ∨ e.yes = true) :
+    aget (invoke cfg H pr i .run e s).1.sums (sumKey t) = none ∧
+    (invoke cfg H pr i .run e s).2.exit = .failed ∧ (invoke cfg H pr i .run e s).2.ran = [] ∧
+    (invoke cfg H pr i .run e s).2.skipped = false ∧
+    (invoke cfg H pr i .run e s).1.log = s.log ++ [⟨i, fpNow H pr t s.files, e.now, false, srcList pr t s.files⟩] := by
+  have hint : interrupted t e = true := by simp [interrupted, hcan, hst]
+  rw [invoke_run cfg H pr ht e s (checkErr_gset t e s.files hg)]
+  simp only [hint, Bool.not_true, Bool.and_false, Bool.false_eq_true, if_false]
+  have hcond : (t.prompt && !false && !e.yes) = false := by
+    rcases hp with h | h <;> simp [h]
+  obtain ⟨hclog, hcfiles, _, _, _⟩ := isUpToDate_effect H pr t e.now s
+  have hmk := mkdirTask_fields t (isUpToDate H pr t false e.now s).1
+  cases hc : t.cmds with
+  | nil => exact absurd hc hcmds
+  | cons c cs =>
+    unfold runBody
+    simp only [hcond, Bool.false_eq_true, if_false, hc, cmdLoop, hcan, if_true]
+    refine ⟨?_, trivial, trivial, trivial, ?_⟩
+    · simp only [onError_sums, if_pos hcs]; simp
+    · simp only [onError_log]
+      simp [hmk.1, hmk.2.2.1, hclog, hcfiles]
+
+/-- the history of the directed stream — source in place, status file in place, the run is cancelled
+by its sibling — is not bad: the next run is NOT skipped, and `goodRun` is false (the one attempt
+failed) -/
+theorem C04_sibling_cancelled_not_bad :
+    let t : Task := { mk [120] .checksum false 1 with status := [1] }
+    let hist : List Step := [w0, .op (.write 1 [1] 6), .inv 0 .run { env 10 with cancelled := true }]
+    ¬ Bad Cfg.fixed (pj [t]) hist 0 t ∧
+    (invoke Cfg.fixed hId (pj [t]) 0 .run (env 99) (runHist Cfg.fixed hId (pj [t]) hist State.empty).1).2.skipped = false ∧
+    (runHist Cfg.fixed hId (pj [t]) hist State.empty).1.sums = [] ∧
+    goodRun hId (pj [t]) 0 t (runHist Cfg.fixed hId (pj [t]) hist State.empty).1 = false ∧
+    -- … and the same for method timestamp (the marker is removed again)
+    (let tt : Task := { mk [120] .timestamp false 1 with status := [1] }
+     (runHist Cfg.fixed hId (pj [tt]) hist State.empty).1.marks = [] ∧
+     (invoke Cfg.fixed hId (pj [tt]) 0 .run (env 99) (runHist Cfg.fixed hId (pj [tt]) hist State.empty).1).2.skipped = false) := by
+  decide
+
+/-! ## Two activations of one task in one invocation (`Env.twin`, open finding) -/
+
+/-- the property for a second activation: it is reported up to date only if `goodRun` holds of the
+state the invocation started from -/
+def C04_concurrent : Prop :=
+  ∀ (H : Hashes) (pr : Proj) (hist : List Step) (i : Nat) (t : Task) (e : Env),
+    pr.tasks[i]? = some t → t.sources.isEmpty = false →
+    twinUp H pr i e (runHist Cfg.fixed H pr hist State.empty).1 = true →
+    goodRun H pr i t (runHist Cfg.fixed H pr hist State.empty).1 = true
+
+/-- **(open, the root of the kill finding without any kill)** the task has never run; it is activated
+twice in one invocation: the first activation's check records the fingerprint and its commands start
+— and the second activation, checking meanwhile, is reported UP TO DATE (both methods) -/
+theorem C04_counterexample_concurrent :
+    let e : Env := { env 10 with twin := true }
+    (let t := mk [120] .checksum false 2
+     let s := (runHist Cfg.fixed hId (pj [t]) [w0] State.empty).1
+     twinUp hId (pj [t]) 0 e s = true ∧ goodRun hId (pj [t]) 0 t s = false ∧
+     (invoke Cfg.fixed hId (pj [t]) 0 .run e s).2.ran = [0, 1] ∧ (invoke Cfg.fixed hId (pj [t]) 0 .run e s).2.skipped = false) ∧
+    (let t := mk [120] .timestamp false 2
+     let s := (runHist Cfg.fixed hId (pj [t]) [w0] State.empty).1
+     twinUp hId (pj [t]) 0 e s = true ∧ goodRun hId (pj [t]) 0 t s = false) := by decide
+
+theorem C04_concurrent_false : ¬ C04_concurrent := by
+  intro h
+  have hc := C04_counterexample_concurrent.1
+  have := h hId (pj [mk [120] .checksum false 2]) [w0] 0 _ { env 10 with twin := true } rfl (by decide) hc.1
+  rw [hc.2.1] at this
+  cases this
+
+/-- **why** (method checksum): the first activation's non-dry check leaves the present fingerprint in
+the store (`sumCheck_stored`), so a second check on that state — files untouched: the first is still
+inside its first command — finds it: for a task without `status:` and `generates:` the second
+activation is reported up to date WHENEVER the first one runs. -/
+theorem C04_concurrent_root {i : Nat} {t : Task} (ht : pr.tasks[i]? = some t) (hcs : Cs t)
+    (hst : t.status.isEmpty = true) (hgen : t.generates = []) (e : Env) (s : State) (htw : e.twin = true)
+    (hg : e.gset = true) (hp : t.prompt = false ∨ e.yes = true) (hcm : t.cmds ≠ [])
+    (hno : (isUpToDate H pr t false e.now s).2 = false) :
+    twinUp H pr i e s = true := by
+  have hcond : (t.prompt && !e.yes) = false := by rcases hp with h | h <;> simp [h]
+  have hce : checkErr t e s.files = false := checkErr_gset t e s.files hg
+  have hne : t.cmds.isEmpty = false := by cases hc : t.cmds with | nil => exact absurd hc hcm | cons _ _ => rfl
+  have hstored : aget (isUpToDate H pr t false e.now s).1.sums (sumKey t) = some (fpNow H pr t s.files) :=
+    (isUpToDate_effect H pr t e.now s).2.2.2.1 hcs
+  have hfiles : (isUpToDate H pr t false e.now s).1.files = s.files := (isUpToDate_effect H pr t e.now s).2.1
+  have h2 : (isUpToDate H pr t false e.now (isUpToDate H pr t false e.now s).1).2 = true := by
+    rw [isUpToDate_sources H pr hcs.2]
+    simp only [srcCheck, hcs.1, sumCheck_result, hfiles, hstored, hst, if_true, decide_true, Bool.and_true]
+    simp [gensOk, hgen]
+  simp only [twinUp, ht, htw, hce, hno, hcond, hne, h2]
+  simp
+
+/-! ## An error of the up-to-date check (F8D) -/
+
+/-- **a check that ends in an error leaves nothing behind**: when a `generates` entry cannot be
+expanded (`${G:?}…` while `G` is not set — `checkErr`), the run exits with the error of the check
+(`checkError`), starts no command, logs no attempt, and — F8D: the entries are looked at BEFORE the
+checksum is recorded — the state is exactly what it was. -/
+theorem C04_check_error_leaves_nothing (cfg : Cfg) {i : Nat} {t : Task} (ht : pr.tasks[i]? = some t)
+    (e : Env) (s : State) (hce : checkErr t e s.files = true) :
+    (invoke cfg H pr i .run e s).1 = s ∧ (invoke cfg H pr i .run e s).2.exit = .checkError ∧
+    (invoke cfg H pr i .run e s).2.ran = [] ∧ (invoke cfg H pr i .run e s).2.skipped = false := by
+  rw [invoke_run_err cfg H pr ht e s hce]
+  exact ⟨rfl, rfl, rfl, rfl⟩
+
+/- sources `[0]`, generates `[1]` written `${G:?}/…` -/
+private def tGe : Task := { mk [120] .checksum false 1 with generates := [⟨false, [1]⟩], gguard := [0] }
+
+/-- the former witness of D-C04-check-error: the generates file is in place, the run WITHOUT `G` ends
+with the error of the check; with `G` set the next run is NOT skipped (and `checkErr` really holds in
+the first run: non-vacuity of `C04_check_error_leaves_nothing`) -/
+theorem C04_check_error_fixed :
+    let hist : List Step := [w0, .op (.write 1 [7] 6), .inv 0 .run { env 10 with gset := false }]
+    checkErr tGe { env 10 with gset := false } (runHist Cfg.fixed hId (pj [tGe]) [w0, .op (.write 1 [7] 6)] State.empty).1.files = true ∧
+    ¬ Bad Cfg.fixed (pj [tGe]) hist 0 tGe ∧ (runHist Cfg.fixed hId (pj [tGe]) hist State.empty).1.sums = [] ∧
+    (invoke Cfg.fixed hId (pj [tGe]) 0 .run (env 99) (runHist Cfg.fixed hId (pj [tGe]) hist State.empty).1).2.ran = [0] := by
+  decide
+
+/-- **HISTORICAL (before F8D — NOT the tree any more)**: the checksum had been recorded before the
+entries were looked at; from THAT state (`sumCheck` applied) the next run, with `G` set, is skipped
+although no command ever ran (`goodRun` is false) -/
+theorem C04_check_error_old_rule :
+    let s0 := (runHist Cfg.fixed hId (pj [tGe]) [w0, .op (.write 1 [7] 6)] State.empty).1
+    let sOld := (sumCheck hId (pj [tGe]) tGe false s0).1
+    (invoke Cfg.fixed hId (pj [tGe]) 0 .run (env 99) sOld).2.skipped = true ∧ goodRun hId (pj [tGe]) 0 tGe sOld = false := by
+  decide
+
 /-! ## Method timestamp after TS1–TS3: what is true now -/
 
 /-- **a declined prompt leaves no marker** (TS3, analogue of `C04_prompt_declined_no_entry`): a run
@@ -466,8 +783,8 @@ theorem C04_timestamp_declined_no_marker (cfg : Cfg) {i : Nat} {t : Task} (ht : 
     aget (invoke cfg H pr i .run e s).1.marks (tsKey t) = none ∧
     (invoke cfg H pr i .run e s).2.exit = .cancelled ∧ (invoke cfg H pr i .run e s).2.ran = [] ∧
     (invoke cfg H pr i .run e s).1.log = s.log ∧ (invoke cfg H pr i .run e s).1.files = s.files := by
-  rw [invoke_run cfg H pr ht] at hns ⊢
-  by_cases hup : (isUpToDate H pr t false e.now s).2 = true
+  rw [invoke_run cfg H pr ht e s (checkErr_timestamp e s.files hts.1)] at hns ⊢
+  by_cases hup : ((isUpToDate H pr t false e.now s).2 && !interrupted t e) = true
   · rw [if_pos hup] at hns; cases hns
   · rw [if_neg hup, runBody_declined cfg H pr i t e _ hdec]
     refine ⟨?_, rfl, rfl, ?_, ?_⟩
@@ -482,8 +799,8 @@ theorem C04_timestamp_failed_no_marker (cfg : Cfg) {i : Nat} {t : Task} (ht : pr
     (hf : (invoke cfg H pr i m e s).2.exit = .failed) :
     aget (invoke cfg H pr i m e s).1.marks (tsKey t) = none := by
   rcases hm with rfl | rfl
-  · rw [invoke_run cfg H pr ht] at hf ⊢
-    by_cases hup : (isUpToDate H pr t false e.now s).2 = true
+  · rw [invoke_run cfg H pr ht e s (checkErr_timestamp e s.files hts.1)] at hf ⊢
+    by_cases hup : ((isUpToDate H pr t false e.now s).2 && !interrupted t e) = true
     · rw [if_pos hup] at hf; cases hf
     · rw [if_neg hup] at hf ⊢
       rw [runBody_failed_marks cfg H pr i t e _ hf, if_pos hts]; simp
@@ -534,7 +851,7 @@ theorem C04_timestamp_uptodate_check_pure (cfg : Cfg) {i : Nat} {t : Task} (ht :
     (hsk : (invoke cfg H pr i .run e s).2.skipped = true) : (invoke cfg H pr i .run e s).1 = s := by
   have hup := run_skipped cfg H pr ht e s hsk
   have hts' := tsUp_of_upToDate H pr hts false e.now s hup
-  rw [invoke_run cfg H pr ht, if_pos hup, isUpToDate_ts H pr hts]
+  rw [invoke_run cfg H pr ht e s (checkErr_timestamp e s.files hts.1), if_pos (run_skipped_cond cfg H pr ht e s hsk), isUpToDate_ts H pr hts]
   exact tsCheck_upToDate_pure t false e.now s (by rw [tsCheck_result]; exact hts')
 
 /-- a sequence of runs of task `i` -/
@@ -568,7 +885,7 @@ theorem C04_timestamp_marker_is_last_run (cfg : Cfg) {i : Nat} {t : Task} (ht : 
     aget (invoke cfg H pr i .run e s).1.marks (tsKey t) = some e.now := by
   have hup : ¬ (isUpToDate H pr t false e.now s).2 = true := fun h => by
     rw [tsUp_of_upToDate H pr hts false e.now s h] at hno; cases hno
-  rw [invoke_run cfg H pr ht, if_neg hup] at h1 h2 ⊢
+  rw [invoke_run cfg H pr ht e s (checkErr_timestamp e s.files hts.1), if_neg (fun h => hup (and_left_true h))] at h1 h2 ⊢
   rw [runBody_marks_kept cfg H pr i t e _ h1 h2, isUpToDate_ts H pr hts]
   exact tsCheck_stored t e.now s (by rw [tsCheck_result]; exact hno)
 
@@ -665,7 +982,7 @@ theorem invTs_body {i : Nat} {t : Task} (hts : Ts t) (e : Env) (hk : e.killAt = 
       simp at hm
     | true =>
       rw [(hok rfl).2] at hm
-      refine ⟨hle m hm, ⟨i, fpNow H pr t s1.files, e.now, true⟩, ?_, rfl, hle m hm⟩
+      refine ⟨hle m hm, ⟨i, fpNow H pr t s1.files, e.now, true, srcList pr t s1.files⟩, ?_, rfl, hle m hm⟩
       rw [hlog, lastAtt_append]
       simp
 
@@ -701,13 +1018,19 @@ theorem invTs_step (hd : TsKeysDistinct pr) {i : Nat} {t : Task} (ht : pr.tasks[
           have hle : ∀ m, aget s.marks (tsKey tj) = some m → m ≤ e.now := fun m hm => (hinv' m hm).1
           cases m with
           | force =>
-            rw [invoke_force Cfg.fixed H pr htj]
-            exact invTs_body H pr hts e hk s hle
+            rw [invoke_force Cfg.fixed H pr htj, forceStart_ts H pr hts.1]
+            apply invTs_body H pr hts e hk
+            intro m hm
+            rw [isUpToDate_ts H pr hts] at hm
+            simp only at hm
+            rcases tsCheck_marker_after tj e.now s with h | ⟨_, hs⟩
+            · rw [h] at hm; cases hm; exact Nat.le_refl _
+            · rw [hs] at hm; exact hle m hm
           | run =>
-            rw [invoke_run Cfg.fixed H pr htj]
+            rw [invoke_run Cfg.fixed H pr htj e s (checkErr_timestamp e s.files hts.1)]
             split
             · rename_i hup
-              have hup' := tsUp_of_upToDate H pr hts false e.now s hup
+              have hup' := tsUp_of_upToDate H pr hts false e.now s (and_left_true hup)
               have hpure : (isUpToDate H pr tj false e.now s).1 = s := by
                 rw [isUpToDate_ts H pr hts]
                 exact tsCheck_upToDate_pure tj false e.now s (by rw [tsCheck_result]; exact hup')
@@ -730,7 +1053,7 @@ theorem invTs_step (hd : TsKeysDistinct pr) {i : Nat} {t : Task} (ht : pr.tasks[
           rw [invoke_marks_other H pr htj m e s _ hx] at hm0
           obtain ⟨h1, a, ha1, ha2, ha3⟩ := hinv' m0 hm0
           refine ⟨h1, a, ?_, ha2, ha3⟩
-          rcases invoke_log H pr j m e s with hl | ⟨fp, ok, hl⟩
+          rcases invoke_log H pr j m e s with hl | ⟨fp, ok, src, hl⟩
           · rw [hl]; exact ha1
           · rw [hl, lastAtt_append]
             simp [hij, ha1]
@@ -907,6 +1230,17 @@ theorem C04_timestamp_with_generates_false : ¬ C04_timestamp_with_generates := 
     (by decide) 0 tg (env 99) hb.1 (by decide) hb.2.1 hb.2.2.1
   rw [hb.2.2.2] at this
   cases this
+
+/-- **clock granularity** (the `≤ a.time` of `goodRun`'s timestamp branch, stated as a fact): a source
+rewritten in the same tick as a successful run (mtime 10 = the time of the run) is NOT newer than the
+marker: the next run is skipped, and `goodRun` — which reads "no source newer than the last attempt"
+with the same `≤` — holds; one tick later (mtime 11) the run rebuilds -/
+theorem C04_same_tick_edit_counts_as_seen :
+    let t := mk [120] .timestamp false 1
+    let s1 := (runHist Cfg.fixed hId (pj [t]) [w0, run 0 10, .op (.write 0 [2] 10)] State.empty).1
+    (invoke Cfg.fixed hId (pj [t]) 0 .run (env 20) s1).2.skipped = true ∧ goodRun hId (pj [t]) 0 t s1 = true ∧
+    (invoke Cfg.fixed hId (pj [t]) 0 .run (env 20)
+      (runHist Cfg.fixed hId (pj [t]) [w0, run 0 10, .op (.write 0 [2] 11)] State.empty).1).2.ran = [0] := by decide
 
 /-! ## non-vacuity of the timestamp theorems -/
 
